@@ -13,12 +13,13 @@ let vals s = if s = "-" then None else Some (split ',' s)
 let rs_of_int i = match rs_of_code (zi i) with Some s -> s | None -> RSUnknown
 
 (* ---------------- record store ---------------- *)
-let parse_sop (op : ostring) : sop =
+let rec parse_sop (op : ostring) : sop =
   match split '.' op with
   | ["S"; wf; fid; run; st; status; seed; created; ver; _mut] ->
     SStore { r_wf = n_of_int (ios wf); r_fid = n_of_int (ios fid); r_run = n_of_int (ios run); r_state = rs_of_int (ios st);
              r_status = zi (ios status); r_obj = OVal (zi (ios seed), []); r_created = zi (ios created); r_updated = zi (ios created);
              r_ver = zi (ios ver); r_reason = N0; r_desc = Z0 }
+  | "SF" :: _k :: rest -> (match parse_sop (String.concat "." ("S" :: rest)) with SStore r -> SStoreFail r | _ -> failwith "SF")
   | ["L"; run; _] -> SLookup (n_of_int (ios run))
   | ["T"; wf; fid; _] -> SLatest (n_of_int (ios wf), n_of_int (ios fid))
   | ["O"; wf; lim] -> SOutbox (n_of_int (ios wf), zi (ios lim))
@@ -30,14 +31,16 @@ let parse_sop (op : ostring) : sop =
              f_state = (match vals states with None -> None | Some l -> Some (List.map (fun x -> zi (ios x)) l)) })
   | _ -> failwith ("ms op " ^ op)
 
+let with_created = ref true
 let srec_str (r : record) =
   Printf.sprintf "%s.%s.%s.%s.%s.%s.%s.%s" (sn r.r_wf) (sn r.r_fid) (sn r.r_run) (sz (rs_code r.r_state)) (sz r.r_status)
-    (match r.r_obj with OVal (s, _) -> sz s | ODeleted -> "-999") (sz r.r_created) (sz r.r_ver)
+    (match r.r_obj with OVal (s, _) -> sz s | ODeleted -> "-999") (if !with_created then sz r.r_created else "0") (sz r.r_ver)
 let topic_tok = function TStatus s -> "s" ^ sz s | TDelete -> "d" | TRunStateChange -> "r"
 let oentry_str (o : oentry) =
   Printf.sprintf "%s/%s/%s/%s/%s/%s/%s/%s" (sn o.o_id) (sn o.o_wf) (topic_tok o.o_topic) (sn o.o_run) (sn o.o_fid) (sz o.o_type) (sz o.o_state) (sz o.o_ver)
 let sobs_str = function
   | ObOk -> "ok"
+  | ObErr -> "err"
   | ObRec None -> "nf"
   | ObRec (Some r) -> "rec:" ^ srec_str r
   | ObOutbox l -> "ob:" ^ String.concat "," (List.map oentry_str l)
@@ -49,6 +52,14 @@ let ms_model (a : ostring list) : ostring list =
   let r = List.map sobs_str (ref_run rstore0 ops) and m = List.map sobs_str (mem_run mstore0 ops) in
   if r <> m then failwith "extracted MemStore and RefStore disagree (contradicts Stores refinement theorem)";
   r
+
+(* the SQL store: same contract; CreatedAt is stamped by the database and not compared; the statement log must be clean *)
+let sq_model (a : ostring list) : ostring list =
+  with_created := false;
+  let r = (try ms_model a with e -> with_created := true; raise e) in
+  with_created := true;
+  r @ ["log:ok"]
+let sqt_model_ref : (ostring list -> ostring list) ref = ref (fun _ -> [])
 
 (* ---------------- streams ---------------- *)
 let parse_mop (op : ostring) : mop =
@@ -175,6 +186,20 @@ let register (reg : ostring -> (ostring list -> ostring list) -> (ostring list -
   reg "mst" mst_model (equal_monitor "stream" mst_model);
   reg "mco" mco_model (equal_monitor "connector" mco_model);
   reg "mto" mto_model (equal_monitor "timeout store" mto_model);
+  reg "sq" sq_model (equal_monitor "SQL store" sq_model);
+  let sqt_model a = List.map tobs_str (tref_run rtstore0 (List.map parse_top a)) @ ["log:ok"] in
+  reg "sqt" sqt_model (equal_monitor "SQL timeout store" sqt_model);
+  (* role scheduler: an acceptor — never two live holders of one role; every Await call returns in the end *)
+  let mro_model a =
+    let n = List.length (List.filter (fun o -> String.length o > 0 && o.[0] = 'a') a) in
+    [(if n = 0 then "0" else "1"); string_of_int n] in
+  let mro_monitor a obs = (match obs, mro_model a with
+    | [ov; ret], [_; n] ->
+      if int_of_string ov > 1 then Some (Printf.sprintf "%s holders of one role were live at the same time" ov)
+      else if ret <> n then Some (Printf.sprintf "%s of %s Await calls returned although every holder released its role" ret n)
+      else None
+    | _ -> Some "unparsable") in
+  reg "mro" mro_model mro_monitor;
   reg "launch" launch_model launch_monitor;
   reg "aw" aw_model aw_monitor;
   (* Schedule is rejected (and starts nothing) iff the workflow is not running or the specification is not one of the
